@@ -113,4 +113,6 @@ MUTATIONS += [
          old="        if t_eval[0] < min(t_span[0], t_span[1]) or t_eval[-1] > max(t_span[0], t_span[1]):", new="        if t_eval[0] < t_span[0] or t_eval[-1] > t_span[1]:"),
     dict(name="revert_D47_t_eval_past_terminal_event", props=["C18"], file=DS,
          old="            if ode_system.integration_status == \"Integration terminated upon finding a triggered event.\" and ode_system[-1].t != t:", new="            if False:"),
+    dict(name="revert_D48_args_names_from_getfullargspec", props=["C18"], file=DS,
+         old="        fn_params = [param.name for param in inspect.signature(fn).parameters.values()\n                     if param.kind in (param.POSITIONAL_ONLY, param.POSITIONAL_OR_KEYWORD)]", new="        fn_params = inspect.getfullargspec(fn)[0]"),
 ]
